@@ -1,5 +1,6 @@
 import RedisVerif.Model.Codec
 import RedisVerif.Lemmas.Wal
+import RedisVerif.Driver.Crc32
 
 /-! Helper lemmas about the segment / checkpoint framing model. -/
 namespace RedisVerif.Codec
@@ -75,15 +76,20 @@ theorem segFooter_fields (crc : Bytes → Nat) (recs sizes : Bytes) (hs : sizes.
 theorem record_length (p : Bytes) : (record p).length = 4 + p.length := by
   simp [record, le_length]
 
-/-- reading back the records of a writer: `count` ≥ number of records, trailing `[]` -/
-theorem readRecords_records {δ : Type} (ser : δ → Bytes) (de : Bytes → Option δ) (ds : List δ)
-    (hde : ∀ d ∈ ds, de (ser d) = some d) (hfit : ∀ d ∈ ds, (ser d).length < 2 ^ 32) (k : Nat) :
-    readRecords de (ds.length + k) (records (ds.map ser)) = .ok ds := by
+/-- reading back the records of a writer: `count` = number of records (or, for the lax
+    iterator, any larger count) -/
+theorem readRecords_records {δ : Type} (strict : Bool) (ser : δ → Bytes) (de : Bytes → Option δ)
+    (ds : List δ) (hde : ∀ d ∈ ds, de (ser d) = some d) (hfit : ∀ d ∈ ds, (ser d).length < 2 ^ 32)
+    (k : Nat) (hk : strict = false ∨ k = 0) :
+    readRecords strict de (ds.length + k) (records (ds.map ser)) = .ok ds := by
   induction ds with
   | nil =>
     cases k with
     | zero => rfl
-    | succ k => simp [readRecords, records]
+    | succ k =>
+      rcases hk with hk | hk
+      · subst hk; simp [readRecords, records]
+      · cases hk
   | cons d ds ih =>
     have hd := hde d (by simp)
     have hf := hfit d (by simp)
@@ -217,5 +223,228 @@ theorem chk_parts (hdr len4 payload foot trailing : Bytes)
   · have : data = (hdr ++ (len4 ++ payload)) ++ (foot ++ trailing) := by simp [data]
     rw [this, List.drop_left' (by simp [hh, hl]; omega)]
     exact List.take_left' hf
+
+/-! ### reading what the writers wrote; error lemmas (moved here from Props/C14) -/
+
+/-- everything the writer puts into width-limited fields fits -/
+def SegFits (crc : Bytes → Nat) (ps : List Bytes) (ts : List Nat) : Prop :=
+  ps.length < 2 ^ 32 ∧ (∀ p ∈ ps, p.length < 2 ^ 32) ∧
+  crc (segCovered ps.length (minOf ts) (maxOf ts)) < 2 ^ 32 ∧ crc (records ps) < 2 ^ 32
+
+instance (crc : Bytes → Nat) (ps : List Bytes) (ts : List Nat) : Decidable (SegFits crc ps ts) := by
+  unfold SegFits; infer_instance
+
+/-- what the reader makes of a written header + arbitrary records + written footer, with
+    ARBITRARY bytes in the positions no checksum covers (`pad` = header bytes 30..40, `sizes` =
+    footer bytes 4..20) -/
+theorem readSegParts_written {δ : Type} (strict : Bool) (crc : Bytes → Nat) (de : Bytes → Option δ)
+    (n a b : Nat) (recs pad sizes : Bytes) (hs : sizes.length = 16) (hn : n < 2 ^ 32)
+    (hc : crc (segCovered n a b) < 2 ^ 32) (hr : crc recs < 2 ^ 32) :
+    readSegParts strict crc de (segHeaderG crc n a b pad) recs (segFooterG crc recs sizes)
+      = readRecords strict de n recs := by
+  obtain ⟨h1, h2, h3, h4, h5, h6⟩ := segHeader_fields crc n a b pad
+  obtain ⟨f1, f2, _⟩ := segFooter_fields crc recs sizes hs
+  unfold readSegParts
+  simp only [h1, h2, h3, h4, h5, h6, f1, f2]
+  rw [leVal_le 4 _ (by simpa using hc), leVal_le 4 _ (by simpa using hr), leVal_le 4 _ (by simpa using hn)]
+  simp
+
+theorem readSegment_written {δ : Type} (strict : Bool) (crc : Bytes → Nat) (de : Bytes → Option δ)
+    (n a b : Nat) (recs pad sizes : Bytes) (hp : pad.length = 10) (hs : sizes.length = 16)
+    (hn : n < 2 ^ 32) (hc : crc (segCovered n a b) < 2 ^ 32) (hr : crc recs < 2 ^ 32) :
+    readSegment strict crc de (segHeaderG crc n a b pad ++ (recs ++ segFooterG crc recs sizes))
+      = readRecords strict de n recs := by
+  obtain ⟨_, _, f3⟩ := segFooter_fields crc recs sizes hs
+  obtain ⟨p1, p2, p3, p4⟩ := seg_parts (segHeaderG crc n a b pad) recs (segFooterG crc recs sizes)
+    (segHeader_length _ _ _ _ _ hp) f3
+  unfold readSegment
+  rw [if_neg (by rw [p1]; omega), p2, p3, p4, readSegParts_written strict crc de n a b recs pad sizes hs hn hc hr]
+
+/-- the reader looks at nothing but header bytes 0..30, the record bytes, and footer bytes
+    0..4 and 20..24 -/
+theorem readSegParts_congr {δ : Type} (strict : Bool) (crc : Bytes → Nat) (de : Bytes → Option δ)
+    (hdr hdr' recs foot foot' : Bytes) (hh : hdr'.take 30 = hdr.take 30)
+    (hf : foot'.take 4 = foot.take 4) (hm : (foot'.drop 20).take 4 = (foot.drop 20).take 4) :
+    readSegParts strict crc de hdr' recs foot' = readSegParts strict crc de hdr recs foot := by
+  unfold readSegParts
+  simp only [hh, hf, hm]
+
+theorem readSegParts_err_of_header_crc {δ : Type} (strict : Bool) (crc : Bytes → Nat) (de : Bytes → Option δ)
+    (hdr recs foot : Bytes)
+    (h : crc ((hdr.take 30).take 26) ≠ leVal (((hdr.take 30).drop 26).take 4)) :
+    IsErr (readSegParts strict crc de hdr recs foot) := by
+  unfold readSegParts
+  simp only
+  repeat' split
+  all_goals first | exact isErr_error _ | (exfalso; omega) | (exfalso; contradiction)
+
+theorem readSegParts_err_of_magic {δ : Type} (strict : Bool) (crc : Bytes → Nat) (de : Bytes → Option δ)
+    (hdr recs foot : Bytes) (h : (foot.drop 20).take 4 ≠ footMagic) :
+    IsErr (readSegParts strict crc de hdr recs foot) := by
+  unfold readSegParts
+  simp only
+  repeat' split
+  all_goals first | exact isErr_error _ | (exfalso; omega) | (exfalso; contradiction)
+
+theorem readSegParts_err_of_data_crc {δ : Type} (strict : Bool) (crc : Bytes → Nat) (de : Bytes → Option δ)
+    (hdr recs foot : Bytes) (h : crc recs ≠ leVal (foot.take 4)) :
+    IsErr (readSegParts strict crc de hdr recs foot) := by
+  unfold readSegParts
+  simp only
+  repeat' split
+  all_goals first | exact isErr_error _ | (exfalso; omega) | (exfalso; contradiction)
+
+/-- the parts view is what `readSegment` computes -/
+theorem readSegment_parts {δ : Type} (strict : Bool) (crc : Bytes → Nat) (de : Bytes → Option δ) (data : Bytes)
+    (h : 64 ≤ data.length) :
+    readSegment strict crc de data = readSegParts strict crc de (data.take 40)
+      ((data.drop 40).take (data.length - 64)) (data.drop (data.length - 24)) := by
+  unfold readSegment; rw [if_neg (by omega)]
+
+/-- the last four bytes are the footer magic -/
+def EndsInFooterMagic (p : Bytes) : Prop := ((p.drop (p.length - 24)).drop 20).take 4 = footMagic
+
+instance (p : Bytes) : Decidable (EndsInFooterMagic p) := by unfold EndsInFooterMagic; infer_instance
+
+def ChkFits (crc : Bytes → Nat) (k t l : Nat) (payload : Bytes) : Prop :=
+  payload.length < 2 ^ 32 ∧ crc (chkCoveredA ++ chkCoveredB k t l) < 2 ^ 32 ∧
+  crc payload < 2 ^ 32 ∧ crc (le 4 (crc payload) ++ le 8 payload.length) < 2 ^ 32
+
+instance (crc : Bytes → Nat) (k t l : Nat) (p : Bytes) : Decidable (ChkFits crc k t l p) := by
+  unfold ChkFits; infer_instance
+
+/-- reading a written checkpoint whose uncovered bytes (header padding 6..8, reserved 32..44,
+    anything after the footer) are ARBITRARY -/
+theorem readCheckpoint_written {σ : Type} (crc : Bytes → Nat) (de : Bytes → Option σ)
+    (k t l : Nat) (payload pad res trailing : Bytes) (hp : pad.length = 2) (hr : res.length = 12)
+    (hfit : ChkFits crc k t l payload) :
+    readCheckpoint crc de (chkHeaderG crc k t l pad res ++
+        (le 4 payload.length ++ (payload ++ (chkFooter crc payload ++ trailing))))
+      = match de payload with
+        | none => .error .ser
+        | some s => .ok s := by
+  obtain ⟨hl, hc, hd, hf⟩ := hfit
+  obtain ⟨h1, h2, h3, h4, h5⟩ := chkHeader_fields crc k t l pad res hp hr
+  obtain ⟨f1, f2, f3, f4⟩ := chkFooter_fields crc payload
+  obtain ⟨p1, p2, p3, p4, p5⟩ := chk_parts (chkHeaderG crc k t l pad res) (le 4 payload.length)
+    payload (chkFooter crc payload) trailing (chkHeader_length _ _ _ _ _ _ hp hr) (le_length _ _)
+    (chkFooter_length _ _)
+  unfold readCheckpoint
+  rw [if_neg (by rw [p1]; omega)]
+  simp only [p2, p3, h1, h2, h3, h4, h5]
+  rw [leVal_le 4 _ (by simpa using hc), leVal_le 4 _ (by simpa using hl)]
+  simp only [p4, p5, f1, f2, f3, f4]
+  rw [leVal_le 4 _ (by simpa using hf), leVal_le 4 _ (by simpa using hd),
+    leVal_le 8 _ (by have : payload.length < 2 ^ 64 := by omega
+                     simpa using this)]
+  rw [if_neg (by decide), if_neg (by decide), if_neg (by simp), if_neg (by rw [p1]; omega),
+    if_neg (by rw [p1]; omega), if_neg (by simp), if_neg (by decide), if_neg (by simp),
+    if_neg (by simp)]
+  rfl
+
+/-- any image too short for the footer its own length field announces is rejected -/
+theorem chk_err_of_short {σ : Type} (crc : Bytes → Nat) (de : Bytes → Option σ) (data : Bytes)
+    (h : data.length < 52 ∨ data.length < 52 + leVal ((data.drop 48).take 4) + 16) :
+    IsErr (readCheckpoint crc de data) := by
+  unfold readCheckpoint
+  simp only
+  repeat' split
+  all_goals first | exact isErr_error _ | (exfalso; omega) | (exfalso; contradiction)
+
+theorem chk_err_of_header_crc {σ : Type} (crc : Bytes → Nat) (de : Bytes → Option σ) (data : Bytes)
+    (h : crc ((data.take 48).take 6 ++ ((data.take 48).drop 8).take 24)
+          ≠ leVal (((data.take 48).drop 44).take 4)) :
+    IsErr (readCheckpoint crc de data) := by
+  unfold readCheckpoint
+  simp only
+  repeat' split
+  all_goals first | exact isErr_error _ | (exfalso; omega) | (exfalso; contradiction)
+
+theorem chk_err_of_footer_crc {σ : Type} (crc : Bytes → Nat) (de : Bytes → Option σ) (data : Bytes)
+    (h : let foot := (data.drop (52 + leVal ((data.drop 48).take 4))).take 16
+         crc (foot.take 12) ≠ leVal ((foot.drop 12).take 4)) :
+    IsErr (readCheckpoint crc de data) := by
+  unfold readCheckpoint
+  simp only at h ⊢
+  repeat' split
+  all_goals first | exact isErr_error _ | (exfalso; omega) | (exfalso; contradiction)
+
+theorem chk_err_of_data_crc {σ : Type} (crc : Bytes → Nat) (de : Bytes → Option σ) (data : Bytes)
+    (h : let dlen := leVal ((data.drop 48).take 4)
+         crc ((data.drop 52).take dlen) ≠ leVal (((data.drop (52 + dlen)).take 16).take 4)) :
+    IsErr (readCheckpoint crc de data) := by
+  unfold readCheckpoint
+  simp only at h ⊢
+  repeat' split
+  all_goals first | exact isErr_error _ | (exfalso; omega) | (exfalso; contradiction)
+
+/-- an error while iterating the records is an error of the whole read -/
+theorem readSegParts_isErr_of_records {δ : Type} (strict : Bool) (crc : Bytes → Nat)
+    (de : Bytes → Option δ) (hdr recs foot : Bytes)
+    (h : IsErr (readRecords strict de (leVal (((hdr.take 30).drop 6).take 4)) recs)) :
+    IsErr (readSegParts strict crc de hdr recs foot) := by
+  unfold readSegParts
+  simp only
+  repeat' split
+  all_goals first | exact isErr_error _ | exact h
+
+/-- the strict iterator never accepts a proper prefix of the records it was told to expect -/
+theorem readRecords_strict_prefix_err {δ : Type} (de : Bytes → Option δ) (ps : List Bytes)
+    (hfit : ∀ p ∈ ps, p.length < 2 ^ 32) (m : Nat) (hm : m < (records ps).length) :
+    IsErr (readRecords true de ps.length ((records ps).take m)) := by
+  induction ps generalizing m with
+  | nil => simp [records] at hm
+  | cons p ps ih =>
+    have hp := hfit p (by simp)
+    simp only [records, List.flatMap_cons, List.length_cons] at hm ⊢
+    rw [List.take_append]
+    by_cases hlt : m < (record p).length
+    · have h0 : m - (record p).length = 0 := by omega
+      rw [h0, List.take_zero, List.append_nil]
+      rw [record_length] at hlt
+      unfold readRecords
+      simp only [List.length_take, record_length]
+      by_cases hz : m = 0
+      · subst hz; simp; exact isErr_error _
+      · rw [if_neg (by omega)]
+        by_cases h4 : m < 4
+        · rw [if_pos (by omega)]; exact isErr_error _
+        · rw [if_neg (by omega)]
+          have e1 : ((record p).take m).take 4 = le 4 p.length := by
+            rw [List.take_take, Nat.min_eq_left (by omega)]
+            unfold record; exact List.take_left' (le_length _ _)
+          have e2 : ((record p).take m).drop 4 = p.take (m - 4) := by
+            unfold record
+            rw [List.take_append, List.take_of_length_le (by rw [le_length]; omega), le_length,
+              List.drop_left' (le_length _ _)]
+          simp only [e1, e2]
+          rw [leVal_le 4 _ (by simpa using hp), if_pos (by rw [List.length_take]; omega)]
+          exact isErr_error _
+    · rw [List.take_of_length_le (by omega)]
+      have hm' : m - (record p).length < (List.flatMap record ps).length := by
+        rw [List.length_append] at hm; omega
+      have hrec := ih (fun q hq => hfit q (by simp [hq])) (m - (record p).length) hm'
+      unfold readRecords
+      have hl : (record p ++ List.take (m - (record p).length) (List.flatMap record ps)).length
+          = 4 + p.length + (List.take (m - (record p).length) (List.flatMap record ps)).length := by
+        rw [List.length_append, record_length]
+      rw [if_neg (by rw [hl]; omega), if_neg (by rw [hl]; omega)]
+      have e1 : (record p ++ List.take (m - (record p).length) (List.flatMap record ps)).take 4
+          = le 4 p.length := by
+        unfold record; rw [List.append_assoc]; exact List.take_left' (le_length _ _)
+      have e2 : (record p ++ List.take (m - (record p).length) (List.flatMap record ps)).drop 4
+          = p ++ List.take (m - (record p).length) (List.flatMap record ps) := by
+        unfold record; rw [List.append_assoc]; exact List.drop_left' (le_length _ _)
+      simp only [e1, e2]
+      rw [leVal_le 4 _ (by simpa using hp), if_neg (by rw [List.length_append]; omega),
+        List.take_left' rfl, List.drop_left' rfl]
+      cases de p with
+      | none => exact isErr_error _
+      | some d =>
+        simp only
+        unfold records at hrec
+        obtain ⟨e, he⟩ := hrec
+        rw [he]
+        exact isErr_error _
 
 end RedisVerif.Codec
